@@ -170,6 +170,7 @@ Section Passes.
     destruct (n_ins n) as [|[x|] [|? ?]] eqn:Ei; try (apply Pres_refl; assumption).
     destruct (n_outs n) as [|y [|? ?]] eqn:Eo; try (apply Pres_refl; assumption).
     destruct (is_graph_output m y && (is_graph_input m x || is_initializer m x)); [apply Pres_refl; assumption|].
+    destruct (is_graph_output m y && is_graph_output m x); [apply Pres_refl; assumption|].
     destruct (is_graph_output m y && negb (produced_beside m k x)); [apply Pres_refl; assumption|].
     destruct (get_node_spec _ _ _ Eg) as [Hin Hk].
     assert (Hky : k = y). { unfold has_key, node_key in Hk. rewrite Eo in Hk. apply N.eqb_eq in Hk. auto. }
